@@ -601,7 +601,9 @@ impl Datamodel for RFsmExpressionDatamodel {
                             for (name, item_value) in map {
                                 #[cfg(feature = "Debug")]
                                 debug!("ForEach: #{} {} {}={}", idx, name, item_name, item_value);
-                                self.set_arc(item_name, item_value.clone(), true);
+                                // A copy: the item variable must not alias the element of the collection.
+                                let item_copy = item_value.lock().unwrap().clone();
+                                self.set(item_name, item_copy, true);
                                 if !index.is_empty() {
                                     self.set(index, Data::Integer(idx), true);
                                 }
@@ -618,7 +620,9 @@ impl Datamodel for RFsmExpressionDatamodel {
                             for data in array {
                                 #[cfg(feature = "Debug")]
                                 debug!("ForEach: #{} {:?}", idx, data);
-                                self.set_arc(item_name, data.clone(), true);
+                                // A copy: the item variable must not alias the element of the collection.
+                                let item_copy = data.lock().unwrap().clone();
+                                self.set(item_name, item_copy, true);
                                 if !index.is_empty() {
                                     self.set(index, Data::Integer(idx), true);
                                 }
